@@ -401,6 +401,64 @@ def oracle(ctx):
                              {"objective_at_result": e1, "objective_at_initial_guess": 0.0},
                              "a ConvergenceWarning, or an objective no larger than at the initial guess")
 
+    # ---- round-4 probes ----
+    # (d) method names in any letter case select the same algorithm AND the same function handed to it (round-4 seed C03/10:
+    #     equilibrium chose between f and y - f(y) before lower-casing the name)
+    Ac = torch.tensor([[0.3, -0.2], [0.1, 0.25]], dtype=DT)
+    bc = torch.tensor([0.7, -0.4], dtype=DT)
+    fmapc = lambda y, A, b: y @ A.T + b + 0.05 * torch.sin(y)
+    for fn_name, names in (("equilibrium", ["anderson_acc", "Anderson_Acc", "ANDERSON_ACC", "Broyden1", "LinearMixing"]),
+                           ("rootfinder", ["Broyden1", "NEWTON", "linearMixing"]), ("minimize", ["Broyden1", "GD", "Adam"])):
+        for nm in names:
+            try:
+                if fn_name == "equilibrium":
+                    y, warned = run(lambda: equilibrium(fmapc, torch.zeros(2, dtype=DT), params=(Ac, bc), method=nm, f_tol=1e-9))
+                    r = float((fmapc(y, Ac, bc) - y).norm())
+                elif fn_name == "rootfinder":
+                    y, warned = run(lambda: rootfinder(lambda y, A, b: y - fmapc(y, A, b), torch.zeros(2, dtype=DT), params=(Ac, bc), method=nm, f_tol=1e-9))
+                    r = float((fmapc(y, Ac, bc) - y).norm())
+                else:
+                    kwm = dict(step=0.2, maxiter=4000) if nm.lower() in ("gd", "adam") else {}
+                    y, warned = run(lambda: minimize(lambda y, b: ((y - b) ** 2).sum() + 0.1 * (y ** 4).sum(), torch.zeros(2, dtype=DT), params=(bc,), method=nm, **kwm))
+                    yy = y.detach().clone().requires_grad_()
+                    r = float(torch.autograd.grad(((yy - bc) ** 2).sum() + 0.1 * (yy ** 4).sum(), yy)[0].norm()) * (1e-9 / 1e-3 if nm.lower() in ("gd", "adam") else 1e-9 / 1e-5)
+            except Exception as e:
+                ctx.fail("oracle", "%s:method-name-case:exception" % fn_name, {"method": nm}, repr(e)[:200], "names are matched case-insensitively")
+                continue
+            ctx.count(("name-case", fn_name, nm))
+            if warned or not r < 1e-9:
+                ctx.fail("oracle", "%s:method-name-case" % fn_name, {"method": nm}, {"warned": warned, "scaled_residual": r},
+                         "the same silent convergence as with the lower-case name")
+    # (e) anderson_acc with a mixing parameter other than the default (round-4 seed C03/11: sign of the (1 - beta) term)
+    for beta in (0.5, 0.8, 1.2):
+        for msize in (2, 5):
+            try:
+                y, warned = run(lambda: equilibrium(fmapc, torch.zeros(2, dtype=DT), params=(Ac, bc), method="anderson_acc", f_tol=1e-9, beta=beta, msize=msize))
+            except Exception as e:
+                ctx.fail("oracle", "equil:anderson_acc:beta:exception", {"beta": beta, "msize": msize}, repr(e)[:200], "converges")
+                continue
+            ctx.count(("anderson-beta", beta, msize))
+            r = float((fmapc(y, Ac, bc) - y).norm())
+            if warned or not r < 1e-9:
+                ctx.fail("oracle", "equil:anderson_acc:beta", {"beta": beta, "msize": msize, "map": "contractive affine + 0.05 sin"},
+                         {"warned": warned, "residual": r}, "silent convergence on a contractive map for any mixing parameter near 1")
+    # (f) gd / adam with an absolute f_tol: the stopping test is on the CHANGE of the objective, so adding a constant to the
+    #     objective changes nothing (round-4 seed C03/12: the test applied to |f| itself)
+    for meth, kwm in (("gd", dict(step=0.1, gamma=0.0)), ("adam", dict(step=0.05))):
+        outs = []
+        for shift in (0.0, -2.0, 1.0, 50.0):
+            try:
+                y, warned = run(lambda: minimize(lambda y, c: (y ** 2).sum() + c, torch.tensor([4.0, 4.0], dtype=DT), params=(torch.tensor(shift, dtype=DT),),
+                                                 method=meth, f_tol=1e-6, f_rtol=0.0, x_tol=0.0, x_rtol=0.0, maxiter=3000, **kwm))
+            except Exception as e:
+                ctx.fail("oracle", "min:%s:objective-shift:exception" % meth, {"shift": shift}, repr(e)[:200], "a point")
+                continue
+            outs.append((shift, y.detach(), warned))
+        ctx.count(("objective-shift", meth))
+        if outs and any(w != outs[0][2] or not torch.allclose(y_, outs[0][1], rtol=0, atol=1e-9) for _, y_, w in outs):
+            ctx.fail("oracle", "min:%s:depends-on-a-constant-added-to-the-objective" % meth, {"objective": "|y|^2 + c from (4, 4)", "f_tol": 1e-6, "f_rtol": 0.0},
+                     [{"c": sh, "returned": y_.tolist(), "warned": w} for sh, y_, w in outs], "the same point and the same warning status for every c")
+
 
 def search(ctx):
     oracle(ctx)
